@@ -73,7 +73,8 @@ class Findings:
 
 
 # ----------------------------------------------------------------- sanitizer report keys
-_FRAME = re.compile(r"^\s*#(\d+)\s+0x[0-9a-f]+\s+in\s+(\S+)\s+(\S+)")
+# ASan/UBSan: "#0 0xADDR in func file:line"; gcc TSan: "#0 func file:line (module+0xOFF)"
+_FRAME = re.compile(r"^\s*#(\d+)\s+(?:0x[0-9a-f]+\s+in\s+)?(\S+)\s+(\S+)")
 
 
 def _repo_frames(lines, limit=3):
